@@ -527,6 +527,11 @@ class Task(Value, Generic[P, R]):
         in future executions. When fetching a Task from the cache, the cached
         hash might no longer exist in the code base (registered tasks).
         """
+        # `version` is restored from the pickled state, so rehashing alone cannot see a version
+        # change (or removal) of the registered task. Compare against the registry explicitly.
+        _task = get_task_registry().get(self.fullname)
+        if _task is None or _task.version != self.version:
+            return False
         return self.hash == self._calc_hash()
 
     def get_hash(self, data: Optional[bytes] = None) -> str:
